@@ -1,14 +1,16 @@
 (** * The composed model: from wall polygons to the pipeline scene.
 
     [from_polygon] (tiling), [patches_center]/[patches_area], [bake_geometry] (patch-to-patch
-    visibility with the PATCHES as blockers, visible-pair list, form-factor assembly with the
-    Stokes/Nusselt branch, wall frames of the BRDF direction sets), [init_source_energy] and the
+    visibility with the PATCHES as blockers, visible-pair list, form-factor assembly with BOTH
+    branches computed: Stokes contour integral, and the Nusselt analogue of [Model/Nusselt.v] for
+    coincident pairs; wall frames of the BRDF direction sets), [init_source_energy] and the
     receiver collection (point visibility with the WALLS as blockers, point-to-patch shares).
-    Only the Nusselt integrator's values (coincident pairs) enter as data. *)
+    No form-factor value enters as data: the inputs are the polygons, the BRDF tables, the
+    attenuation and the literal tolerances of the code. *)
 From Coq Require Import List Arith Bool.
 Import ListNotations.
 From SV Require Import Base.Ops Base.Arr Model.Vec3 Model.Exchange Model.Scene Model.Frame
-  Model.Tiling Model.Visibility Model.Stokes Model.PtSolution.
+  Model.Tiling Model.Visibility Model.Stokes Model.Nusselt Model.PtSolution.
 
 Section Full.
   Context {T : Type} {O : Ops T}.
@@ -24,12 +26,14 @@ Section Full.
     rm_tidx : list nat;
     rm_att : list T;
     rm_nb : nat;
-    rm_nusselt : @arr2 T;                (* Nusselt-branch values, read for coincident pairs only *)
     rm_thr : T;                          (* 1e-10: tangent-vector branch of pt_solution *)
     rm_eps : T;                          (* 1e-6: _project_to_plane *)
     rm_eta : T;                          (* 1e-6: _point_in_polygon / _basic_visibility *)
     rm_thres : T;                        (* 1e-6: _coincidence_check *)
-    rm_cut : T                           (* Stokes segment cut-off *)
+    rm_cut : T;                          (* Stokes segment cut-off *)
+    rm_thr_seg : T;                      (* 1e-6: nusselt_analog, norm(cross(..)) > 1e-6 *)
+    rm_thr_dot : T;                      (* 1e-6: nusselt_analog, dot(..) >= 1e-6 *)
+    rm_thr_lag : T                       (* 1e-6: _poly_estimation_Lagrange, abs(x[-1]-x[0]) < 1e-6 *)
   }.
 
   Variable rm : room.
@@ -45,8 +49,12 @@ Section Full.
     check_patch2patch (rm_eps rm) (rm_eta rm) rm_centers rm_patch_surfs.
   Definition pairs_of (visU : list (list bool)) (n : nat) : list (nat * nat) :=
     flat_map (fun i => flat_map (fun j => if get2b visU i j then [(i, j)] else []) (seq 0 n)) (seq 0 n).
+  (** [patch2patch_ff_universal(patches_points, patches_normal, patches_area, visible_patches)],
+      Stokes and Nusselt branch both computed by the model *)
+  Definition rm_pairs : list (nat * nat) := pairs_of rm_visU rm_np.
   Definition rm_F : @arr2 T :=
-    patch2patch_ff (rm_thres rm) (rm_cut rm) rm_patch_pts rm_areas (pairs_of rm_visU rm_np) (rm_nusselt rm).
+    patch2patch_ff_full (rm_thres rm) (rm_cut rm) (rm_thr_seg rm) (rm_thr_dot rm) (rm_thr_lag rm)
+      rm_patch_pts (pr_normals rm_processed) rm_areas rm_pairs.
 
   Definition room_scene : @scene T :=
     mkScene rm_np (length (rm_ref_out rm)) (rm_nb rm) rm_centers rm_areas (pr_wall_ids rm_processed)
